@@ -513,7 +513,11 @@ def parse_statement_list(
 ) -> List[Statement]:
     parsed_statements = []
     for obj in statements:
-        assert isinstance(obj, dict), obj
+        if not isinstance(obj, dict):
+            raise exc.DataGenSyntaxError(
+                f"Statements should be dictionaries, not `{obj}`",
+                **context.line_num(),
+            )
         if obj.get("object"):
             object_template = parse_object_template(obj, context)
             parsed_statements.append(object_template)
@@ -521,7 +525,7 @@ def parse_statement_list(
             variable_definition = parse_variable_definition(obj, context)
             parsed_statements.append(variable_definition)
         else:
-            keys = [key for key in obj.keys() if not key.startswith("_")]
+            keys = [key for key in obj.keys() if not str(key).startswith("_")]
             raise exc.DataGenSyntaxError(
                 f"This statement cannot be parsed: {keys}", **context.line_num(obj)
             )
